@@ -71,14 +71,14 @@ def opHandlers : List (String × JHandler) := [
     let pool ← poolOfJ (← jObj j "pool")
     let s ← stateOfJ (← jObj j "state")
     pure (exceptJ (fun (v : Rat × Rat) => Json.arr #[ratJ v.1, ratJ v.2])
-      (estimateAmount K pool s (← jRat j "value") (← jInt j "lower") (← jInt j "upper") (← jInt j "tick_est") (← jRat j "ratio_amt")))),
+      (estimateAmount K pool s (← jRat j "value") (← jInt j "lower") (← jInt j "upper") (← jRat j "tick_real") (← jRat j "ratio_amt")))),
   ("uni.estimateLiquidity", fun j => do
     let K := kernOfJ j
     let pool ← poolOfJ (← jObj j "pool")
     let s ← stateOfJ (← jObj j "state")
     pure (exceptJ (fun (v : Int × Rat × Rat) => Json.arr #[intJ v.1, ratJ v.2.1, ratJ v.2.2])
       (estimateLiquidity K pool s (← jRat j "value") (← jInt j "lower") (← jInt j "upper") (← jInt j "est")
-        (← jInt j "tick_est") (← jRat j "ratio_amt")))),
+        (← jRat j "tick_real") (← jRat j "ratio_amt")))),
   ("uni.priceToSqrt", fun j => do
     let K := kernOfJ j
     let pool ← poolOfJ (← jObj j "pool")
